@@ -31,10 +31,10 @@ REL = 1e-9
 
 
 def plan(tier, seed):
-    nmax = 26 if tier == "quick" else 48
-    per_large = 30 if tier == "quick" else 400
-    return [{"name": "s%d" % i, "i": i, "nmax": nmax, "per_large": per_large, "rand": 14 if tier == "quick" else 400,
-             "units": 1 if tier == "quick" else 3, "cli": 3 if tier == "quick" else 90} for i in range(NSHARD)]
+    nmax = 26 if tier == "quick" else 56
+    per_large = 30 if tier == "quick" else 1500
+    return [{"name": "s%d" % i, "i": i, "nmax": nmax, "per_large": per_large, "rand": 14 if tier == "quick" else 2500,
+             "units": 1 if tier == "quick" else 10, "cli": 3 if tier == "quick" else 250} for i in range(NSHARD)]
 
 
 def close(got, exact, scale=None):
